@@ -30,6 +30,8 @@ type progCase struct {
 	Stdlib    bool   `json:"stdlib"`
 	NoDCE     bool   `json:"nodce"`
 	TimeoutMs int    `json:"timeout_ms"`
+	HostErr   string `json:"hosterr"` // shape of the error returned by the host function "hostfail" (see hostErrMode)
+	Via       string `json:"via"`     // "" | "clone-replace": run a Clone() whose bytecode was detached by ReplaceBuiltinModule
 	Weird     string `json:"weird"`    // module "weird": a custom Importable returning this kind of plain object
 	StateMod  bool   `json:"statemod"` // builtin module "st" with mutable container attributes
 }
@@ -298,7 +300,13 @@ func runProgram(pc *progCase) (res progResult) {
 	}
 	ctx, cancel := context.WithTimeout(context.Background(), to)
 	defer cancel()
+	if pc.Via == "clone-replace" {
+		c = c.Clone()
+		c.ReplaceBuiltinModule("no-such-module", map[string]tengo.Object{}) // detaches (copies) the bytecode of the clone
+	}
+	hostErrMode = pc.HostErr
 	err = c.RunContext(ctx)
+	hostErrMode = ""
 	res.Compiled = c
 	if err != nil {
 		if errors.Is(err, context.DeadlineExceeded) {
